@@ -1,11 +1,175 @@
-(* C01 - placeholder property file: theorems are added as the corresponding model layer is proved.
-   The decisive oracle today is the extracted specification machine (Spec/Tree.v, Spec/Abs.v, Spec/Wf.v). *)
-From Coq Require Import NArith List.
-From FatVerif Require Import Model.Base Spec.Image Proofs.ImageProofs.
+(* C01 - directory-tree operations behave like a case-insensitive in-memory tree; a call that fails with a non-I/O
+   error leaves the tree as it was.
+   This file: the image-layer frame theorem (kept) and the directory SLOT layer (Model/DirSlots.v = find_free_entries,
+   write_entry, the deletion loop of remove/rename_internal, check_for_existence, create, rename of src/dir.rs) against
+   the independent decoder Spec/Abs.dir_scan: creating, removing and renaming entries refine a finite map keyed by the
+   raw short name, with frame.  Property theorems only: each is stated in full and closed by [exact] of a lemma of
+   Proofs/DirSlotsProofs.v.  The whole-tree statement (nested directories, handles) is validated by the extracted
+   tree machine Spec/Tree.v on every run (tools/props/c01.py). *)
+From Coq Require Import NArith List Bool.
+From FatVerif Require Import Model.Base Model.Str Model.Slot Model.Time Model.Name Model.ShortName Model.DirSlots
+  Spec.Image Spec.Abs Proofs.ImageProofs Proofs.DirSlotsProofs.
+From FatVerif Require Model.Lfn Proofs.TimeProofs.
+Import ListNotations.
 Open Scope N_scope.
 
 Theorem C01_image_write_frame : forall bs im off o,
   (o < off \/ off + N.of_nat (length bs) <= o) -> img_get (img_write im off bs) o = img_get im o.
 Proof. exact img_write_outside. Qed.
 
+(* ---- find_free_entries: where a new run of [num] slots goes.  [free_spot ss num p pre mid post] says: ss = pre ++ mid ++ post,
+   p = |pre|, no end marker in pre, mid are deleted slots, and either |mid| = num (a run of deleted slots is reused) or
+   |mid| < num and post is empty or starts with an end marker (the run is put at the end of the used part, over the
+   trailing deleted slots).  No live slot is inside [mid]; for a fixed root there is no capacity check here. *)
+Theorem C01_find_free_entries_spec : forall ss num, 1 <= num -> len_N ss < 134217728 ->
+  exists p pre mid post, find_free_entries ss num = Ok p /\ free_spot ss num p pre mid post.
+Proof. exact find_free_entries_spec. Qed.
+Example C01_find_free_entries_ex :
+  find_free_entries [ex_del; ex_del; ex_live; ex_del; ex_del; ex_del; zero_slot] 3 = Ok 3 /\
+  find_free_entries [ex_del; ex_del; ex_live; ex_del; ex_del; zero_slot; zero_slot] 3 = Ok 3 /\
+  find_free_entries [ex_live; ex_live] 3 = Ok 2 /\ find_free_entries [ex_live; zero_slot; ex_del; ex_del; ex_del] 3 = Ok 1.
+Proof. vm_compute. repeat split. Qed.
+
+(* (write_entry_refines, mark_deleted_refines, rename_slots_refines - the base refinement theorems with the frame
+   conditions - are stated in Props/C03.v: they are also the preservation of the C03 slot clauses.) *)
+
+(* ---- failed calls.  The full statement
+       forall k free ss n e x ss', write_entry k free ss n e = (Err x, ss') -> ss' = ss
+   is FALSE for the code as it is (recorded findings D5/D20): see C01_failed_write_unchanged_refuted.
+   Proved: a rejected name changes nothing (_partial); and outside the known class (the directory can hold the run at the
+   chosen place) every call either succeeds or is a rejected name that changed nothing - no WriteZero, no
+   NotEnoughSpace, no Panic. *)
+Theorem C01_failed_write_unchanged_partial : forall k free ss n e x,
+  validate_long_name n = Err x -> write_entry k free ss n e = (Err x, ss).
+Proof. exact failed_write_unchanged_partial. Qed.
+Theorem C01_failed_write_unchanged : forall k free ss n e,
+  len_N ss < 134217728 -> ~ write_known_class k free ss n e ->
+  (exists range ss', write_entry k free ss n e = (Ok range, ss')) \/
+  (exists x, validate_long_name n = Err x /\ write_entry k free ss n e = (Err x, ss)).
+Proof. exact failed_write_unchanged. Qed.
+Theorem C01_failed_write_unchanged_refuted :
+  exists k free ss n e x ss',
+    write_entry k free ss n e = (Err x, ss') /\ ss' <> ss /\
+    len_N ss < 134217728 /\ sfn_live e /\ write_known_class k free ss n e /\
+    dir_scan ss 0 [] false = ([], [], []) /\ dir_scan ss' 0 [] false = ([], [], [DOrphanLfn 2]).
+Proof. exact failed_write_unchanged_refuted. Qed.
+(* the same for rename (D20): the source is deleted first; a failing write leaves the directory without the source entry *)
+Theorem C01_rename_failed_unchanged_refuted :
+  exists ss src dst ss',
+    rename_in_dir upper_ascii oem_decode_lossy FixedRoot 0 ss src dst = (Err EWriteZero, ss') /\
+    map e_lfn (fst (fst (dir_scan ss 0 [] false))) = [ex_name1; [98]] /\ snd (dir_scan ss 0 [] false) = [] /\
+    map e_lfn (fst (fst (dir_scan ss' 0 [] false))) = [ex_name1] /\ snd (dir_scan ss' 0 [] false) = [DOrphanLfn 8].
+Proof. exact rename_failed_unchanged_refuted. Qed.
+Example C01_failed_write_ex :
+  write_entry FixedRoot 0 ex_dir1 [47] (ex_sfn ex_alias2) = (Err EUnsupportedFileNameCharacter, ex_dir1) /\
+  write_entry FixedRoot 0 ex_dir1 [] (ex_sfn ex_alias2) = (Err EInvalidFileNameLength, ex_dir1) /\
+  ~ write_known_class FixedRoot 0 ex_dir1 [98] (ex_sfn ex_alias2) /\
+  fst (write_entry (Chained 16) 0 (firstn 5 ex_dir2) [99] (ex_sfn ex_alias2)) = Err ENotEnoughSpace.
+Proof.
+  split; [vm_compute; reflexivity|]. split; [vm_compute; reflexivity|]. split; [|vm_compute; reflexivity].
+  intros [p [H1 H2]]. vm_compute in H1. injection H1 as <-. apply H2. vm_compute. repeat constructor.
+Qed.
+
+(* ---- create_file / create_dir in one directory: existence check with the library's own matching (DirEntry::eq_name over
+   what the iterator yields), alias from the C16 generator fed with the raw short names of all listed entries.  On
+   success: exactly one new entry; its alias is legal and differs from the short name of every decoded entry; no listed
+   entry matches the new name (by long or short name, under the library's case folding [upper]); frame. *)
+Theorem C01_create_entry_refines : forall upper oem fat32 k free ss n attrs cl now wd es ls range ss',
+  dir_scan ss 0 [] fat32 = (es, ls, []) -> len_N ss < 134217728 ->
+  attrs < 64 -> N.land attrs 8 = 0 -> TimeProofs.datetime_valid now = true ->
+  create_entry upper oem fat32 k free ss n attrs cl now wd = (Ok (Some range), ss') ->
+  exists es1 es2 ne,
+    es = es1 ++ es2 /\ dir_scan ss' 0 [] fat32 = (es1 ++ ne :: es2, ls, []) /\
+    e_lfn ne = (if is_dot_name n then [] else utf16_encode n) /\ e_lfn_ok ne = true /\ e_attr ne = attrs /\ e_size ne = 0 /\
+    sfn_legal_b (e_sfn ne) = true /\
+    ~ In (e_sfn ne) (map e_sfn es) /\
+    (Wf.has_dup list_eqb (map e_sfn es) = false -> Wf.has_dup list_eqb (map e_sfn (es1 ++ ne :: es2)) = false) /\
+    (forall l, dir_entries oem ss = Ok l -> forall ev, In ev l -> matches upper oem n ev = false) /\
+    (forall i, (i < length ss)%nat -> (N.of_nat i < fst range \/ snd range <= N.of_nat i) -> nth_error ss' i = nth_error ss i).
+Proof. exact create_entry_refines. Qed.
+Definition ex_now : datetime := {| dt_date := {| year := 2024; month := 2; day := 29 |};
+                                   dt_time := {| hour := 13; min := 37; sec := 59; millis := 990 |} |}.
+(* "HELLO WORLD.TXT" exists (matched through the long name, case-insensitively): nothing is written; "Hello World.txx"
+   gets the alias HELLOW~1.TXX (the tail ~1 is free for this extension) *)
+Example C01_create_entry_ex :
+  create_entry upper_ascii oem_decode_lossy false FixedRoot 0 ex_dir2
+    [72; 69; 76; 76; 79; 32; 87; 79; 82; 76; 68; 46; 84; 88; 84] 0 None ex_now false = (Ok None, ex_dir2) /\
+  (let r := create_entry upper_ascii oem_decode_lossy false FixedRoot 0 ex_dir2
+              [72; 101; 108; 108; 111; 32; 87; 111; 114; 108; 100; 46; 116; 120; 120] 0 None ex_now false in
+   fst r = Ok (Some (5, 8)) /\
+   map e_sfn (fst (fst (dir_scan (snd r) 0 [] false))) = [ex_alias1; ex_alias2; [72; 69; 76; 76; 79; 87; 126; 49; 84; 88; 88]] /\
+   snd (dir_scan (snd r) 0 [] false) = []) /\
+  fst (create_entry upper_ascii oem_decode_lossy false FixedRoot 0 ex_dir2 [66] 16 (Some 5) ex_now true) = Err EInvalidInput.
+Proof. vm_compute. repeat split. Qed.
+
+(* ---- dir_refines_map: the decoding of one directory as a finite map (key = raw short name, [dir_map]) commutes with the
+   library's create (create_file / create_dir: existence check, alias, write), remove (find by the library's own matching,
+   deletion loop) and rename within the directory (find, existence check, alias, delete, write).  [attrs_sane]: the
+   library's and the decoder's long-name-slot tests agree on every slot (they differ only on attribute bytes 0x1F, 0x2F,
+   0x3F (+0x40/0x80), which no writer produces: C01_remove_entry_insane_refuted); [bytes_ok]: slots hold bytes. *)
+Theorem C01_dir_refines_map :
+  (forall upper oem fat32 k free ss n attrs cl now wd es ls range ss',
+     dir_scan ss 0 [] fat32 = (es, ls, []) -> len_N ss < 134217728 ->
+     attrs < 64 -> N.land attrs 8 = 0 -> TimeProofs.datetime_valid now = true ->
+     create_entry upper oem fat32 k free ss n attrs cl now wd = (Ok (Some range), ss') ->
+     exists es' ne, dir_scan ss' 0 [] fat32 = (es', ls, []) /\
+       e_lfn ne = (if is_dot_name n then [] else utf16_encode n) /\ dir_map es (e_sfn ne) = None /\
+       forall key, dir_map es' key = if list_eqb (e_sfn ne) key then Some ne else dir_map es key) /\
+  (forall upper oem fat32 ss name ne es ls ss',
+     dir_scan ss 0 [] fat32 = (es, ls, []) -> Forall attrs_sane ss ->
+     remove_entry upper oem ss name ne = (Ok tt, ss') ->
+     exists ev e es1 es2,
+       find_entry upper oem ss name None = Ok ev /\ matches upper oem name ev = true /\ Lfn.ev_raw_name ev = e_sfn e /\
+       es = es1 ++ e :: es2 /\ ss' = mark_deleted ss (e_first_slot e) (e_sfn_slot e + 1) /\
+       dir_scan ss' 0 [] fat32 = (es1 ++ es2, ls, []) /\
+       (NoDup (map e_sfn es) -> forall key, dir_map (es1 ++ es2) key = if list_eqb (e_sfn e) key then None else dir_map es key)) /\
+  (forall upper oem k free fat32 ss src dst es ls ss',
+     dir_scan ss 0 [] fat32 = (es, ls, []) -> len_N ss < 134217728 -> Forall attrs_sane ss -> Forall bytes_ok ss ->
+     NoDup (map e_sfn es) ->
+     rename_in_dir upper oem k free ss src dst = (Ok tt, ss') ->
+     ss' = ss \/
+     exists e ne es',
+       In e es /\ dir_scan ss' 0 [] fat32 = (es', ls, []) /\
+       e_lfn ne = (if is_dot_name dst then [] else utf16_encode dst) /\ e_lfn_ok ne = true /\
+       sfn_legal_b (e_sfn ne) = true /\ ~ In (e_sfn ne) (map e_sfn es) /\
+       e_attr ne = e_attr e mod 64 /\ e_size ne = e_size e /\ e_cluster ne = e_cluster e /\
+       forall key, dir_map es' key =
+         if list_eqb (e_sfn ne) key then Some ne else if list_eqb (e_sfn e) key then None else dir_map es key).
+Proof. exact dir_refines_map. Qed.
+Theorem C01_remove_entry_insane_refuted :
+  exists ss name ss' es ls,
+    dir_scan ss 0 [] false = (es, ls, []) /\ ls <> [] /\
+    remove_entry upper_ascii oem_decode_lossy ss name false = (Ok tt, ss') /\
+    dir_scan ss' 0 [] false = ([], [], []) /\ ~ Forall attrs_sane ss.
+Proof. exact remove_entry_insane_refuted. Qed.
+(* the library's rename_in_dir on the example directory: "b" -> "hello world.TXT" is refused (exists under another case),
+   "b" -> "B" is a no-op (same entry), "b" -> "c" moves the entry in the map *)
+Example C01_rename_ex :
+  rename_in_dir upper_ascii oem_decode_lossy FixedRoot 0 ex_dir2 [98]
+    [104; 101; 108; 108; 111; 32; 119; 111; 114; 108; 100; 46; 84; 88; 84] = (Err EAlreadyExists, ex_dir2) /\
+  rename_in_dir upper_ascii oem_decode_lossy FixedRoot 0 ex_dir2 [98] [66] = (Ok tt, ex_dir2) /\
+  (let r := rename_in_dir upper_ascii oem_decode_lossy FixedRoot 0 ex_dir2 [98] [99] in
+   fst r = Ok tt /\ map e_lfn (fst (fst (dir_scan (snd r) 0 [] false))) = [ex_name1; [99]] /\
+   map e_sfn (fst (fst (dir_scan (snd r) 0 [] false))) = [ex_alias1; [67; 32; 32; 32; 32; 32; 32; 32; 32; 32; 32]] /\
+   snd (dir_scan (snd r) 0 [] false) = []) /\
+  fst (rename_in_dir upper_ascii oem_decode_lossy FixedRoot 0 ex_dir2 [120] [99]) = Err ENotFound /\
+  Forall attrs_sane ex_dir2 /\ Forall bytes_ok ex_dir2 /\ NoDup (map e_sfn (fst (fst (dir_scan ex_dir2 0 [] false)))) /\
+  (let r := remove_entry upper_ascii oem_decode_lossy ex_dir2 [72; 69; 76; 76; 79; 87; 126; 49; 46; 116; 120; 116] false in
+   fst r = Ok tt /\ map e_lfn (fst (fst (dir_scan (snd r) 0 [] false))) = [[98]]).
+Proof.
+  split; [vm_compute; reflexivity|]. split; [vm_compute; reflexivity|]. split; [vm_compute; repeat split|].
+  split; [vm_compute; reflexivity|]. split; [repeat constructor|]. split.
+  { apply bytes_ok_b. vm_compute. reflexivity. }
+  split; [|vm_compute; split; reflexivity].
+  vm_compute. constructor; [|constructor; [|constructor]]; cbn [In]; [intros [C|[]]; discriminate|intros []].
+Qed.
+
 Print Assumptions C01_image_write_frame.
+Print Assumptions C01_find_free_entries_spec.
+Print Assumptions C01_failed_write_unchanged_partial.
+Print Assumptions C01_failed_write_unchanged.
+Print Assumptions C01_failed_write_unchanged_refuted.
+Print Assumptions C01_rename_failed_unchanged_refuted.
+Print Assumptions C01_create_entry_refines.
+Print Assumptions C01_dir_refines_map.
+Print Assumptions C01_remove_entry_insane_refuted.
